@@ -247,6 +247,48 @@ def rule_accum(ctx, py):
                   "%s" % pyfe.src(c)[:60], "cut at '->', at '+', or at any whitespace",
                   "a term is cut with `%s`: repeated blanks or a tab between a coefficient and its label are not treated as "
                   "one separator, the equation is rejected or the coefficient becomes part of the label" % pyfe.src(c)[:50])
+    # a term is `label` or `coefficient label`: the label is one whole whitespace-delimited token, the coefficient the integer
+    # value of another whole token (or 1).  A label cut out of a token (leading digits taken as a coefficient, a suffix dropped)
+    # changes what `2PG`, `13BPG`, `5HT` mean, and the printed equation no longer reads back as the same reaction
+    if aug and not rx:
+        Lv = pyfe.src(aug[0].target.slice)
+        Cv = pyfe.src(aug[0].value)
+        toks = {pyfe.src(st.targets[0]) for st in ast.walk(g) if isinstance(st, ast.Assign) and isinstance(st.value, ast.Call) and
+                isinstance(st.value.func, ast.Attribute) and st.value.func.attr == "split" and not st.value.args and
+                not st.value.keywords}
+        ctx.need(len(toks) == 1, R, "parse_side: the whitespace-split token list is not identified")
+        T = list(toks)[0]
+
+        def whole(e):
+            while isinstance(e, ast.Call) and isinstance(e.func, ast.Attribute) and e.func.attr == "strip" and not e.args:
+                e = e.func.value
+            return isinstance(e, ast.Subscript) and pyfe.src(e.value) == T and isinstance(e.slice, ast.Constant)
+
+        pairs = []
+        for st in ast.walk(g):
+            if isinstance(st, ast.Assign) and len(st.targets) == 1:
+                t, v = st.targets[0], st.value
+                if isinstance(t, ast.Tuple) and isinstance(v, ast.Tuple) and len(t.elts) == len(v.elts):
+                    pairs += [(a, b, st) for a, b in zip(t.elts, v.elts)]
+                elif isinstance(t, ast.Tuple):
+                    pairs += [(a, None, st) for a in t.elts]
+                else:
+                    pairs.append((t, v, st))
+            elif isinstance(st, (ast.AugAssign, ast.AnnAssign)) and isinstance(st.target, ast.Name):
+                pairs.append((st.target, None, st))
+        for t, v, st in pairs:
+            nm = pyfe.src(t)
+            if nm == Lv:
+                okk = v is not None and ((isinstance(v, ast.Constant) and v.value == "") or whole(v))
+                ctx.check(okk, R, st, f._qual, "%s = %s" % (nm, pyfe.src(v)[:40] if v is not None else "?"), "a whole token",
+                          "the species label is not a whole whitespace-delimited token of the term (`%s`): labels that begin "
+                          "with digits are split into a coefficient and another species" % (pyfe.src(st)[:60]))
+            elif nm == Cv:
+                okk = v is not None and ((isinstance(v, ast.Constant) and v.value == 1) or (
+                    isinstance(v, ast.Call) and pyfe.call_name(v) == "int" and len(v.args) == 1 and whole(v.args[0])))
+                ctx.check(okk, R, st, f._qual, "%s = %s" % (nm, pyfe.src(v)[:40] if v is not None else "?"),
+                          "1, or the integer value of a whole token", "the coefficient is not 1 or the integer value of a whole "
+                          "token of the term (`%s`)" % pyfe.src(st)[:60])
     ctx.check(sorted(set(seps) & {"->", "+", "<none>"}) == sorted({"->", "+", "<none>"}), R, f, f._qual,
               "separators used: %s" % sorted(set(seps)), "'->' for the sides, '+' for the terms, whitespace inside a term", "")
     ctx.floor(R, 7)
